@@ -181,6 +181,16 @@ impl Tree {
             x => x.clone(),
         }
     }
+    /// the tree the text parser produces for this document's text: non-negative integers unsigned
+    pub fn text_norm(&self) -> Tree {
+        match self {
+            Tree::Num(Num::I(v)) if *v >= 0 => Tree::Num(Num::U(*v as u64)),
+            Tree::Num(n) => Tree::Num(n.canon()),
+            Tree::Arr(v) => Tree::Arr(v.iter().map(|t| t.text_norm()).collect()),
+            Tree::Obj(v) => Tree::Obj(v.iter().map(|(k, t)| (k.clone(), t.text_norm())).collect()),
+            x => x.clone(),
+        }
+    }
     /// Same JSON value: numbers by exact mathematical value across encodings.
     pub fn same_value(&self, o: &Tree) -> bool {
         crate::refops::compare(self, o) == std::cmp::Ordering::Equal
